@@ -725,7 +725,7 @@ def check_state(item):
 def _check_state(item, res):
   run = StateRun(item, res)
   tier_quick = item.get("tier", "quick") == "quick"
-  chunk = 16 if tier_quick else 1
+  chunk = 16 if tier_quick else 2
   try:
     gm, tabm = run.fresh()
   except gfapy.Error as e:
@@ -844,10 +844,21 @@ def _check_state(item, res):
   if run.nviol:
     return
   # ---- phase C: isolated ordered pairs against fresh baselines ------------
-  if tier_quick:
-    plan = [(fams, fams)]
-  else:
-    plan = [(kinds, fams)]
+  def line_of(qi):
+    r = M[qi][2]["recv"]
+    return None if r[0] in ("g", "new") else r[1]
+
+  def related(q1, q2):
+    """thorough tier, q1 any kind, q2 a family representative: the families
+    of q1's own receiver line, the Gfa-level families, str() of every other
+    line (everything if q1 is a Gfa-level query)."""
+    l1, l2 = line_of(q1), line_of(q2)
+    return l1 is None or l2 is None or l1 == l2 or M[q2][2]["op"] == ["str"]
+
+  fset = set(fams)
+  plan = [(fams, fams)]
+  if not tier_quick:
+    plan.append((kinds, fams))
   need = sorted(set(x for a, b in plan for x in a + b))
   r0 = {}
   for qi in need:
@@ -868,7 +879,8 @@ def _check_state(item, res):
     for q1 in firsts:
       if run.nviol >= MAX_VIOL_PER_STATE:
         break
-      todo = [q2 for q2 in seconds if (q1, q2) not in done_pairs]
+      todo = [q2 for q2 in seconds if (q1, q2) not in done_pairs and
+              (q1 in fset or related(q1, q2))]
       if not todo:
         continue
       g1, tab1 = run.fresh()
